@@ -23,7 +23,7 @@ ASSUMPTIONS = ['capture with sd = 0 (deterministic); sampled capture (sd > 0) is
                'value at time T = initial value xor parity of the transitions strictly before T',
                'memory reuse off for decoding; accumulation expected only for lines that are evaluated (all lines unless forks are stripped)']
 
-ACTRL_KINDS = ['all0', 'own', 'pairs', 'w10', 'w01', 'w23', 'some-1']
+ACTRL_KINDS = ['all0', 'own', 'pairs', 'w10', 'w01', 'w23', 'some-1', 'neg', 'neg25']      # weights are integers: negative ones are legal (net level change)
 
 
 def tasks(tier, seed):
@@ -131,6 +131,8 @@ def make_actrl(kind, nlines, height, idx):
         elif kind == 'w01': a[l] = (0, 0, 1)
         elif kind == 'w23': a[l] = (l % 3, 2, 3)
         elif kind == 'some-1': a[l] = (-1, 5, 7) if (l + idx) % 2 else (1, 1, 2)
+        elif kind == 'neg': a[l] = (l, 1, -1)
+        elif kind == 'neg25': a[l] = (l % 2, 2, -5)
     return a
 
 
@@ -152,8 +154,8 @@ def w2_case(res, case):
     from checks.c08 import root_stems
     stems = root_stems(c) if strip else {}
 
-    def run(caps, with_actrl=True):
-        sim = W.make_sim(c, delays, n, caps=caps, a_ctrl=actrl if with_actrl else None, strip=strip)
+    def run(caps, with_actrl=True, cuda=False):
+        sim = W.make_sim(c, delays, n, caps=caps, a_ctrl=actrl if with_actrl else None, strip=strip, cuda=cuda)
         W.assign(sim, ipos + spos, init, tt, fin)
         sim.s_to_c(); sim.c_prop()
         if case['T'] is None: sim.c_to_s()
@@ -205,7 +207,16 @@ def w2_case(res, case):
     if got_abuf.shape != exp_abuf.shape or not np.array_equal(got_abuf, exp_abuf):
         bad = np.argwhere(got_abuf != exp_abuf)[0].tolist() if got_abuf.shape == exp_abuf.shape else 'shape'
         res.violation(key + '/abuf', case, f'accumulated activity differs at {bad}: got {got_abuf[tuple(bad)] if bad != "shape" else got_abuf.shape} expected {exp_abuf[tuple(bad)] if bad != "shape" else exp_abuf.shape} {nl}')
+    # the GPU-kernel path accumulates through atomic adds: same weighted counts
+    if (common.h64(case['nl']) + len(case['actrl'])) % 2 == 0:
+        gsim = run(case['caps'], cuda=True)
+        g_abuf = np.asarray(gsim.abuf)
+        if g_abuf.shape != exp_abuf.shape or not np.array_equal(g_abuf, exp_abuf):
+            bad = np.argwhere(g_abuf != exp_abuf)[0].tolist() if g_abuf.shape == exp_abuf.shape else 'shape'
+            res.violation(key + '/abuf-gpu', case, f'GPU path: accumulated activity differs at {bad}: got {g_abuf[tuple(bad)] if bad != "shape" else g_abuf.shape} expected {exp_abuf[tuple(bad)] if bad != "shape" else exp_abuf.shape} {nl}')
+        res.count('w2_gpu_abuf')
     if exp_abuf.any(): res.count('w2_nonzero_abuf')
+    if (exp_abuf < 0).any(): res.count('w2_negative_abuf')
     res.sig((case['nl'], case['style'], tuple(case['plan']), case['capname'], case['actrl'], case['T'], got_abuf.tobytes()))
     res.count('w2_cases')
     if strip: res.count('w2_strip_cases')
@@ -254,7 +265,7 @@ def replay(case):
 
 
 def finish(agg, tier):
-    need = ['w1_overflows', 'w2_overflow_flags', 'w2_nonzero_abuf', 'w2_cases', 'w2_strip_cases']
+    need = ['w1_overflows', 'w2_overflow_flags', 'w2_nonzero_abuf', 'w2_negative_abuf', 'w2_gpu_abuf', 'w2_cases', 'w2_strip_cases']
     missing = [k for k in need if not agg.counters.get(k)]
     if missing: raise common.HarnessError(f'vacuity guard: {missing} zero')
     return {}
